@@ -36,7 +36,7 @@ def enc_len(m):
 
 
 def run(plan):
-    s = Session(plan)
+    s = Session(plan, max_iterations=(8 * plan.get("count", 0) + 20_000))
     w = s.world
     dev = s.dev
     res = Result()
